@@ -84,7 +84,11 @@ def run_case(case):
     spec = case["spec"]
     res = {"status": "ok", "violations": [], "faults": {}, "probes": {}, "days": 0, "nontrivial": [], "evals": 0}
 
+    swg = ":SwitchGDD=1" if (spec["crop"].get("overrides") or {}).get("SwitchGDD") == 1 else ""
+
     def V(sig, msg):
+        if swg and sig.startswith("C11:differs"):
+            sig += swg   # the calendar-to-thermal conversion is written onto the user's Crop (see known findings)
         if not any(v["sig"] == sig for v in res["violations"]):
             res["violations"].append({"sig": sig, "msg": msg, "where": {}})
 
